@@ -297,6 +297,23 @@ func callBloom(stream string, fl *wire.MsgFilterLoad, datas [][]byte, txs []*bch
 				f.AddHash(&h)
 			}
 			_ = f.MsgFilterLoad()
+			// state changes between calls: unloaded, reloaded with the same message, reloaded with an EMPTY bit
+			// array that keeps the hash-function count (the division-by-zero shape), then queried and updated again
+			f.Unload()
+			_ = f.Matches(d)
+			f.Add(d)
+			f.Reload(cloneFL(fl))
+			_ = f.Matches(d)
+			hf := uint32(1)
+			if fl != nil && fl.HashFuncs > 0 {
+				hf = fl.HashFuncs
+			}
+			f.Reload(&wire.MsgFilterLoad{Filter: []byte{}, HashFuncs: hf})
+			_ = f.Matches(d)
+			f.Add(d)
+			f.Reload(&wire.MsgFilterLoad{HashFuncs: hf})
+			_ = f.Matches(d)
+			f.Add(d)
 			return nontriv
 		})
 		// correspondence with the checked model (NoPanic/BloomNP.v), small arrays only
@@ -396,6 +413,12 @@ func callMerkle(stream string, msg *wire.MsgMerkleBlock) {
 		_ = pb.GetMatches()
 		_ = pb.GetItems()
 		accepted, bad = root != nil, pb.BadTree()
+		// state left over between calls: the cursors of a PartialBlock are not reset; a second extraction
+		// (and the accessors after it) must return, not index past the exhausted bit / hash arrays
+		_ = pb.ExtractMatches()
+		_ = pb.GetMatches()
+		_ = pb.GetItems()
+		_ = pb.BadTree()
 		return root != nil
 	})
 	// correspondence with the model whose no-panic theorem is in Props/C08.v: tiny messages only
